@@ -42,6 +42,12 @@ var c18Tpls = map[string]string{
 	// executed with a nil context: a root-level set must stay inside the call
 	"s1.html": "{% set q = 'A' %}[{{ q }}{{ r }}]",
 	"s2.html": "{% set r = 'B' %}[{{ q }}{{ r }}]{% set q = 'C' %}",
+	// a macro whose body fails, and nested macro calls (a .txt template: no escaping, the output is known by construction)
+	"mf.txt": "{% macro bad(a) %}<{{ a }}{{ nofunc() }}>{% endmacro %}a{{ _self.bad('q') }}b",
+	"mm.txt": "{% macro w(a) %}[{{ a }}]{% endmacro %}{% macro m(a) %}<{{ a }}>{% endmacro %}{{ _self.w(_self.m('k')) }}|{{ _self.m('j') }}|{{ _self.w(_self.w(_self.m('i'))) }}",
+	// two templates that end too early, at different places
+	"e1.html": "{{ x +",
+	"e2.html": "line1\nline2\n{% for i in l %}{{ i }}{% if i %}",
 	// templates of more than 512 bytes; one imports blocks under an alias, the other plainly (and must not see the alias)
 	"u1.html": c18Pad + "{% extends base %}{% use ub with bb as cc %}{% block b %}[{{ block('cc') }}]{% endblock %}",
 	"u2.html": c18Pad + "{% extends base %}{% use ub %}{% block b %}[{{ block('cc') }}|{{ block('bb') }}]{% endblock %}",
@@ -70,6 +76,7 @@ var c18Ops = []c18Op{
 	{false, "g.xml", false, ""}, {false, "h.xml", false, ""}, {false, "m.js", false, ""},
 	{false, "n.html", false, ""}, {false, "s1.html", true, "[A]"}, {false, "s2.html", true, "[B]"},
 	{false, "u1.html", false, ""}, {false, "u2.html", false, ""}, {false, "u3.html", false, ""},
+	{false, "mf.txt", false, ""}, {false, "mm.txt", false, "[<k>]|<j>|[[<i>]]"}, {false, "e1.html", false, ""}, {true, "e2.html", false, ""},
 }
 
 // c18Epoch makes template names and patterns unique per schedule / iteration ("a~17.html" is served like
@@ -169,6 +176,12 @@ func c18Env(kind int, s *core.Sched) *stick.Env {
 	return env
 }
 
+func c18AfterReturn(w io.Writer) {
+	if cw, ok := w.(*c18Writer); ok && cw.s != nil {
+		cw.s.Point()
+	}
+}
+
 func c18Do(env *stick.Env, op c18Op, w io.Writer, k int64, v int) (res string) {
 	defer func() {
 		if p := recover(); p != nil {
@@ -179,6 +192,7 @@ func c18Do(env *stick.Env, op c18Op, w io.Writer, k int64, v int) (res string) {
 	norm := func(s string) string { return c18Suffix.ReplaceAllString(s, "") }
 	if op.parse {
 		tree, err := env.Parse(name)
+		c18AfterReturn(w)
 		if err != nil {
 			return "parse error: " + norm(err.Error())
 		}
@@ -189,6 +203,7 @@ func c18Do(env *stick.Env, op c18Op, w io.Writer, k int64, v int) (res string) {
 		ctx = nil
 	}
 	err := env.Execute(name, w, ctx)
+	c18AfterReturn(w) // a scheduling point between the call's return and the caller's use of the error
 	if err != nil {
 		return "err=" + norm(err.Error())
 	}
@@ -426,9 +441,16 @@ func c18Levels(tier string) []core.Level {
 		bound = 3
 	}
 	n := len(c18Ops)
-	// all pairs of the first 12 operations; the later ones (nested includes, nil-context calls) with themselves,
-	// with each other and with two of the first (html with blocks, css with include)
-	paired := func(i, j int) bool { return j < 12 || i >= 12 || i == 0 || i == 3 }
+	// all pairs of the first 12 operations; the later ones (nested includes, nil-context calls, padded templates with
+	// use, failing / nested macros, templates that end early) with themselves, with the others of their kind and with
+	// two of the first (html with blocks, css with include)
+	group := map[int]int{13: 1, 14: 1, 15: 2, 16: 2, 17: 2, 18: 3, 19: 3, 20: 4, 21: 4}
+	paired := func(i, j int) bool {
+		if j < 12 || i == 0 || i == 3 || i == j {
+			return true
+		}
+		return i >= 12 && group[i] != 0 && group[i] == group[j] // later operations: with their own kind
+	}
 	pairs := func(kind, bound int, emit func(core.Case)) {
 		for i := 0; i < n; i++ {
 			for j := i; j < n; j++ {
@@ -444,7 +466,7 @@ func c18Levels(tier string) []core.Level {
 		nTriples = len(triples)
 	}
 	lv := []core.Level{
-		{Name: "twig env: pairs of 18 operations (incl. the same one twice), all schedules with <= 1 preemption", Gen: func(emit func(core.Case)) { pairs(0, 1, emit) }},
+		{Name: "twig env: pairs of 22 operations (incl. the same one twice), all schedules with <= 1 preemption", Gen: func(emit func(core.Case)) { pairs(0, 1, emit) }},
 		{Name: fmt.Sprintf("twig env: all pairs, all schedules with <= %d preemptions", bound), Gen: func(emit func(core.Case)) { pairs(0, bound, emit) }},
 		{Name: "core env: all pairs, all schedules with <= 1 preemption", Gen: func(emit func(core.Case)) { pairs(1, 1, emit) }},
 		{Name: fmt.Sprintf("twig env: %d three-thread scenarios, all schedules with <= 2 preemptions", nTriples), Gen: func(emit func(core.Case)) {
